@@ -27,6 +27,7 @@ Shapes == {
   Sh("unterm", B("eval ") \o <<34, 97, 98, 99, 10>> \o B("print ") \o <<49, 10>>, 10, <<>>, "lex"),                  \* eval "abc LF print 1   a string ended by the line: just after the LF
   Sh("untermbs", B("eval ") \o <<34, 97, 98, 99, 92, 10>> \o B("print ") \o <<49, 10>>, 11, <<>>, "lex"),           \* eval "abc\ LF print 1  the escape takes the LF: just after it
   Sh("untermbseof", B("eval ") \o <<34, 97, 98, 99, 92>>, 10, <<>>, "lex"),                                         \* eval "abc\ at the end of input
+  Sh("strpct", B("eval ") \o <<49, 32, 34, 53, 48, 37, 100, 32, 37, 115, 34, 10>>, 16, <<34, 53, 48, 37, 100, 32, 37, 115, 34>>, "compile"),   \* eval 1 "50%d %s"   at the string, quoted as written
   Sh("binop", B("print ") \o <<49, 32, 43, 32, 110, 105, 108, 32, 10>>, 13, <<>>, "runtime"),              \* print 1 + nil  after 'nil'
   Sh("binpar", B("print ") \o <<49, 32, 45, 32, 40, 34, 115, 34, 41, 10>>, 15, <<>>, "runtime"),           \* print 1 - ("s") after ')'
   Sh("unary", B("print ") \o <<45, 32, 34, 115, 34, 10>>, 11, <<>>, "runtime"),                            \* print - "s"    after the string
